@@ -77,7 +77,10 @@ def eval_suite(suite, workdir, shard_size=150, timeout=1800):
             if g.get("per_case_model"):
                 f.write("From V.lib Require Import Eval.\n")
                 f.write("Definition R_model := Eval vm_compute in failures_pc [\n")
-                f.write(";\n".join("  (%s, nth %d cases ([], []))" % (c["model"], i) for i, c in enumerate(cs)))
+                # a case flagged "skip_model" is monitor-only: it stays in the list (indices are case numbers)
+                # with a checker that accepts everything
+                f.write(";\n".join("  (%s, nth %d cases ([], []))" %
+                                   ("(fun _ _ => None)" if c.get("skip_model") else c["model"], i) for i, c in enumerate(cs)))
                 f.write("].\nPrint R_model.\n")
             elif g.get("model"):
                 f.write("Definition R_model := Eval vm_compute in failures (%s) cases.\nPrint R_model.\n" % g["model"])
@@ -86,7 +89,8 @@ def eval_suite(suite, workdir, shard_size=150, timeout=1800):
         procs.append((si, gi, s0, vf))
     # run coqc in parallel (bounded)
     out = {"evaluations": len(all_cases), "steps": sum(len(c["ops"]) for _, _, c in all_cases),
-           "model_fail": [], "monitor_fail": [], "coq_errors": []}
+           "model_fail": [], "monitor_fail": [], "coq_errors": [],
+           "monitor_only": sum(1 for _, _, c in all_cases if c.get("skip_model"))}
     running = []
     maxpar = 8
     pending = list(procs)
@@ -366,6 +370,8 @@ def run_check(spec):
             coverage["suites"][suite.name] = {"cases": r["evaluations"], "steps": r["steps"], "op_histogram": hist,
                                               "model_mismatches": len(r["model_fail"]),
                                               "monitor_failures": len(r["monitor_fail"])}
+            if r.get("monitor_only"):
+                coverage["suites"][suite.name]["monitor_only_cases"] = r["monitor_only"]
             if suite.groups and suite.groups[0]["cases"]:
                 c0 = suite.groups[0]["cases"][min(3, len(suite.groups[0]["cases"]) - 1)]
                 coverage["samples"].append({"suite": suite.name, "cfg": c0.get("cfg", {}), "ops": c0["ops"][:25],
